@@ -101,9 +101,8 @@ def cmdPest (j : Json) : Except String Json := do
   let tr ← decTr (← field j "tr")
   let riseObs ← listOf (fun x => x.getStr?) (← field j "rise_obs")
   let recObs ← listOf (fun x => x.getStr?) (← field j "recession_obs")
-  let nT := match tr with | .spline _ kk _ => kk.length | _ => 0
   let rp := risePst sy riseObs
-  let cp := curvesPst sy nT riseObs recObs
+  let cp := curvesPst sy tr riseObs recObs
   pure (Json.mkObj [
     ("rise_tpl", jStrs (renderTpl (riseTpl sy tr))), ("curves_tpl", jStrs (renderTpl (curvesTpl sy tr))),
     ("rise_ins", jStrs (renderIns (riseIns riseObs.length))),
